@@ -1542,7 +1542,8 @@ func (p *Parser) parseHaving(stmt *SelectStatement) error {
 		}
 
 		tok := p.lexer.NextToken()
-		if tok.Type == TokenLIMIT || tok.Type == TokenEOF || tok.Type == TokenWITH {
+		// ORDER BY may follow HAVING directly (the documented clause order): it ends the predicate
+		if tok.Type == TokenLIMIT || tok.Type == TokenEOF || tok.Type == TokenWITH || tok.Type == TokenOrder {
 			break
 		}
 
